@@ -356,15 +356,16 @@ func objectDefineOwnProperty(obj *object, name string, descriptor property, thro
 
 	value, isDataDescriptor := prop.value.(Value)
 	getSet, _ := prop.value.(propertyGetSet)
+	isGeneric, isData := descriptor.isGenericDescriptor(), descriptor.isDataDescriptor()
 	switch {
-	case descriptor.isGenericDescriptor():
+	case isGeneric:
 		// GenericDescriptor
-	case isDataDescriptor != descriptor.isDataDescriptor():
+	case isDataDescriptor != isData:
 		// DataDescriptor <=> AccessorDescriptor
 		if !configurable {
 			return reject("property descriptor not configurable")
 		}
-	case isDataDescriptor && descriptor.isDataDescriptor():
+	case isDataDescriptor && isData:
 		// DataDescriptor <=> DataDescriptor
 		if !configurable {
 			if !prop.writable() && descriptor.writable() {
@@ -404,12 +405,28 @@ func objectDefineOwnProperty(obj *object, name string, descriptor property, thro
 		descriptor.value = newGetSet
 	}
 
-	// This section will preserve attributes of
-	// the original property, if necessary
+	// Work out the payload and the attributes of the resulting property.
+	// Attributes the descriptor does not specify keep their current setting
+	// (8.12.9 step 12); when the property changes kind (step 9) the attributes
+	// of the new kind take their defaults: value undefined and writable false
+	// for a data property, get/set undefined for an accessor property.
 	value1 := descriptor.value
-	if value1 == nil {
+	becomesData := isDataDescriptor
+	switch {
+	case isGeneric:
 		value1 = prop.value
-	} else if newGetSet, isAccessor := descriptor.value.(propertyGetSet); isAccessor {
+	case isData:
+		becomesData = true
+		if value1 == nil {
+			if isDataDescriptor {
+				value1 = prop.value
+			} else {
+				value1 = Value{}
+			}
+		}
+	default:
+		becomesData = false
+		newGetSet, _ := descriptor.value.(propertyGetSet)
 		if newGetSet[0] == &nilGetSetObject {
 			newGetSet[0] = nil
 		}
@@ -418,24 +435,25 @@ func objectDefineOwnProperty(obj *object, name string, descriptor property, thro
 		}
 		value1 = newGetSet
 	}
+	mode0 := prop.mode
 	mode1 := descriptor.mode
-	if mode1&0o222 != 0 {
-		// TODO Factor this out into somewhere testable
-		// (Maybe put into switch ...)
-		mode0 := prop.mode
-		if mode1&0o200 != 0 {
-			if descriptor.isDataDescriptor() {
-				mode1 &= ^0o200 // Turn off "writable" missing
-				mode1 |= (mode0 & 0o100)
-			}
+	if mode1&0o200 != 0 && becomesData {
+		// "writable" not specified: keep it for a data property, false after a conversion
+		mode1 &= ^0o700
+		if isDataDescriptor {
+			mode1 |= (mode0 & 0o100)
 		}
-		if mode1&0o20 != 0 {
-			mode1 |= (mode0 & 0o10)
-		}
-		if mode1&0o2 != 0 {
-			mode1 |= (mode0 & 0o1)
-		}
-		mode1 &= 0o311 // 0311 to preserve the non-setting on "writable"
+	}
+	if mode1&0o20 != 0 {
+		mode1 = (mode1 & ^0o70) | (mode0 & 0o10)
+	}
+	if mode1&0o2 != 0 {
+		mode1 = (mode1 & ^0o7) | (mode0 & 0o1)
+	}
+	if becomesData {
+		mode1 &= 0o111
+	} else {
+		mode1 = (mode1 & 0o011) | 0o200 // "writable" stays unset on an accessor property
 	}
 	obj.writeProperty(name, value1, mode1)
 
